@@ -114,6 +114,30 @@ def binary_campaign(rep, cases, per_tree=6, limit=40):
     rep.extra["binary_runs"] = rep.extra.get("binary_runs", 0) + 2 * len(scs)
 
 
+def corpus_campaign(rep):
+    """The regression corpus runs first: the concrete failing inputs kept with the seeded changes
+    (seeded/*/replay.json, kind `entries`, with the entries the property text demands)."""
+    import glob
+    n = 0
+    for f in sorted(glob.glob(os.path.join(C.VERIF, "seeded", "*", "replay.json"))):
+        try:
+            r = json.load(open(f)).get("replay", {})
+        except Exception:
+            continue
+        if r.get("kind") != "entries" or not isinstance(r.get("expected"), list) or "file_b64" not in r:
+            continue
+        b = gen.unb64(r["file_b64"])
+        got = norm(drv.entries_of([b], r["structured"], r.get("macros", gen.MACROS_ARG))[0])
+        n += 1
+        rep.count(("corpus", f), nontrivial=True)
+        if got != r["expected"]:
+            rep.violation("regression corpus %s: the finder returns %s, the property text demands %s" % (
+                os.path.relpath(f, C.VERIF), json.dumps(got)[:300], json.dumps(r["expected"])[:300]),
+                {"kind": "entries", "structured": r["structured"], "macros": r.get("macros", gen.MACROS_ARG),
+                 "file_b64": r["file_b64"], "expected": r["expected"], "got": got})
+    rep.extra["corpus_inputs"] = n
+
+
 def replay_entries(r):
     b = gen.unb64(r["file_b64"])
     got = norm(drv.entries_of([b], r["structured"], r.get("macros", gen.MACROS_ARG))[0])
